@@ -578,6 +578,12 @@ def eval_int(fn, e, leaf, depth=12):
         if c is None:
             return None
         return eval_int(fn, e.get("t") if c else e.get("f"), leaf, depth - 1)
+    if k == "call" and e.get("opcall") in ("&", "|", "^") and len(e.get("args", [])) == 2 and e.get("obj") is None:
+        # overloaded bit operators of an enum class (std::launch, ...)
+        l, r = eval_int(fn, e["args"][0], leaf, depth - 1), eval_int(fn, e["args"][1], leaf, depth - 1)
+        if l is None or r is None:
+            return None
+        return {"&": l & r, "|": l | r, "^": l ^ r}[e["opcall"]]
     if k == "call" and e.get("callee") in ("std::max", "std::min"):
         vs = [eval_int(fn, a, leaf, depth - 1) for a in e.get("args", [])]
         if any(x is None for x in vs) or not vs:
